@@ -605,7 +605,7 @@ def _reader_roles(P, term, role, out, depth=0):
     k = term[0]
     if k == "call" and term[1].endswith("Row::<'stmt>::get") and len(term[2]) == 2:
         ix = og.strip(term[2][1])
-        if isinstance(ix, tuple) and ix and ix[0] == "const" and isinstance(ix[1], int) and not isinstance(ix[1], bool):
+        if isinstance(ix, tuple) and ix and ix[0] == "const" and (isinstance(ix[1], str) or (isinstance(ix[1], int) and not isinstance(ix[1], bool))):
             sts = [str(x[1]) for x in og.walk(term[2][0]) if isinstance(x, tuple) and x and x[0] == "const" and isinstance(x[1], str) and x[1].lstrip().upper().startswith("SELECT")]
             out.append((ix[1], role, sql.norm(sts[0]) if len(set(sts)) == 1 else None))
         return
@@ -682,6 +682,16 @@ def rule_SQ7(ctx, tier):
                 seen.add((ix, role, st))
                 cols = _select_cols(st)
                 if cols is None:
+                    continue
+                if isinstance(ix, str):
+                    # read by name: the name is one of the selected columns, and (when the landing place has a name) the same one
+                    names_ = [c_.lower() for c_ in cols if c_]
+                    if ix.lower() not in names_:
+                        rr.fail("row-column-unknown:%s:%s" % (shortfn(bid), ix), "%s DBM: `%s` reads column `%s` of a row of `%s`, which does not select it: rusqlite answers InvalidColumnName and the unwrap panics" % (side, shortfn(bid), ix, st[:80]), where=fb.span)
+                    elif role is None or role.startswith("arg") or role.lower() == ix.lower() or (ix.lower(), role.lower()) in _ROLE_ALIAS:
+                        rr.ok("%s: column %s read by name" % (shortfn(bid), ix))
+                    else:
+                        rr.fail("column-role-mismatch:%s:%s->%s" % (shortfn(bid), ix, role), "%s DBM: `%s` puts column `%s` of `%s` into `%s`" % (side, shortfn(bid), ix, st[:70], role), where=fb.span)
                     continue
                 if ix >= len(cols):
                     rr.fail("row-index-out-of-range:%s:%d" % (shortfn(bid), ix), "%s DBM: `%s` reads position %d of a row of `%s`, which selects %d column(s): rusqlite answers InvalidColumnIndex and the unwrap panics" % (side, shortfn(bid), ix, st[:80], len(cols)), where=fb.span)
@@ -765,14 +775,14 @@ def _placeholder_columns(st):
         if len(cols) != len(vals):
             problems.append("INSERT lists %d columns and %d values" % (len(cols), len(vals)))
         for c, v in zip(cols, vals):
-            mm = re.match(r"^\(?\?(\d*)\)?$", v)
+            mm = re.match(r"^\(?(?:\?(\d*)|(:\w+))\)?$", v)
             if mm:
-                pairs.append((c, int(mm.group(1)) if mm.group(1) else None))
+                pairs.append((c, mm.group(2) if mm.group(2) else (int(mm.group(1)) if mm.group(1) else None)))
         rest = m.group(4)
     elif s.upper().startswith("INSERT"):
         return None, []
-    for mm in re.finditer(r"(?:\b\w+\.)?(\w+)\s*=\s*\(?\?(\d*)\)?", rest):
-        pairs.append((mm.group(1), int(mm.group(2)) if mm.group(2) else None))
+    for mm in re.finditer(r"(?:\b\w+\.)?(\w+)\s*=\s*\(?(?:\?(\d*)|(:\w+))\)?", rest):
+        pairs.append((mm.group(1), mm.group(3) if mm.group(3) else (int(mm.group(2)) if mm.group(2) else None)))
     return pairs, problems
 
 
@@ -822,6 +832,30 @@ def rule_SQ8(ctx, tier):
                 if pairs is None:
                     continue
                 nst += 1
+                named = {}
+                for v_ in vals:
+                    v_ = og.strip(v_)
+                    if isinstance(v_, tuple) and v_ and v_[0] == "tuple" and len(v_[1]) == 2:
+                        k_ = og.strip(v_[1][0])
+                        if isinstance(k_, tuple) and k_ and k_[0] == "const" and isinstance(k_[1], str) and k_[1].startswith(":"):
+                            named[k_[1]] = v_[1][1]
+                if named or any(isinstance(k, str) for c, k in pairs):
+                    # named placeholders (`:uuid` with named_params!): every name used is bound and every binding is used
+                    used_names = set(re.findall(r"(?<![:\w])(:[A-Za-z_]\w*)", st))
+                    if used_names != set(named):
+                        rr.fail("placeholders:names:%s" % shortfn(bid), "%s DBM: `%s` uses the named placeholders %s, bound are %s" % (side, st[:90], sorted(used_names), sorted(named)), where=b.line_of(bb))
+                        continue
+                    for c, k in pairs:
+                        if not isinstance(k, str):
+                            continue
+                        role = _param_role(P, named[k])
+                        if role is None:
+                            rr.ok("%s: %s <- (unnamed value)" % (shortfn(bid), c), nontrivial=False)
+                        elif role.lower() == c.lower() or (c.lower(), role.lower()) in _PARAM_ALIAS:
+                            rr.ok("%s: %s <- %s" % (shortfn(bid), c, role), sample={"rule": "SQ8", "function": shortfn(bid), "column": c, "bound value": role})
+                        else:
+                            rr.fail("bound-value-mismatch:%s:%s<-%s" % (shortfn(bid), c, role), "%s DBM: in `%s` the placeholder of column `%s` is bound to `%s`" % (side, st[:80], c, role), where=b.line_of(bb))
+                    continue
                 nums = [k for c, k in pairs if k is not None]
                 plain = [c for c, k in pairs if k is None]
                 holes = len(re.findall(r"\?", st))
